@@ -893,6 +893,32 @@ macro_rules! per_crate {
                 pub fn run(&mut self, r: &mut Rng, mode_current: bool) -> Result<(), String> {
                     let mut db = self.open(mode_current)?;
                     let steps = r.range(4, 14);
+                    // savepoint churn (one history in five): a rolling window of three persistent savepoints is rotated
+                    // until their ids pass 256, so that the savepoint table holds keys whose little-endian byte order
+                    // differs from their numeric order; only the final state is dumped
+                    if self.h % 5 == 2 {
+                        let mut window: Vec<u64> = vec![];
+                        // stop when the window is {255, 256, 257}: byte order 256 < 257 < 255
+                        for _ in 0..600 {
+                            if window.last().is_some_and(|id| *id >= 257) {
+                                break;
+                            }
+                            let txn = db.begin_write().map_err(|e| format!("begin_write: {e}"))?;
+                            let id = txn.persistent_savepoint().map_err(|e| format!("churn savepoint: {e}"))?;
+                            if window.len() >= 3 {
+                                let old = window.remove(0);
+                                txn.delete_persistent_savepoint(old).map_err(|e| format!("churn delete: {e}"))?;
+                                self.sps.retain(|s| s.persistent_id != Some(old));
+                            }
+                            txn.commit().map_err(|e| format!("churn commit: {e}"))?;
+                            window.push(id);
+                            self.seq += 1;
+                            self.sps.push(Sp { seq: self.seq, persistent_id: Some(id), eph: None, snapshot: self.committed.clone() });
+                        }
+                        self.stats.op("savepoint_churn_past_256");
+                        self.stats.durable += 257;
+                        self.dump("commit-1pc");
+                    }
                     for _ in 0..steps {
                         match r.below(16) {
                             0 => {
